@@ -92,11 +92,21 @@ func (fr *Frame) callWithArgs(s *State, g *Term, call *ssa.CallCommon, ins ssa.I
 		if m := lookupModel(key); m != nil {
 			return m.apply(fr, s, g, call, append([]*Term{fnv}, args...), pos)
 		}
+		if fr.spec {
+			// in a specification: an uninterpreted function of receiver and arguments
+			if rt := resultType(sig); rt != nil {
+				if _, isTup := rt.(*types.Tuple); !isTup {
+					x.note("uninterpreted function in contracts: " + shortKey(key))
+					return c.UF("uf_"+sanitize(shortKey(key)), x.ti.sortOf(rt), append([]*Term{fnv}, args...)...)
+				}
+			}
+		}
 		if fc := x.P.Contracts[key]; fc != nil {
 			names := []string{"self"}
 			for i := 0; i < sig.Params().Len(); i++ {
 				names = append(names, sig.Params().At(i).Name())
 			}
+			x.pendingSelfType = call.Value.Type()
 			return fr.applyContract(s, g, fc, nil, sig, names, append([]*Term{fnv}, args...), pos)
 		}
 		r := fr.freshResult(s, g, "inv_"+call.Method.Name(), sig)
@@ -136,6 +146,22 @@ func (fr *Frame) callWithArgs(s *State, g *Term, call *ssa.CallCommon, ins ssa.I
 		if fr.spec {
 			if callee.Blocks != nil {
 				return fr.inlineCall(s, g, callee, args, nil, true)
+			}
+			// body-less function in a specification: an uninterpreted function of its arguments
+			// (the same symbol the contract-expression evaluator uses)
+			if rt := resultType(sig); rt != nil {
+				if _, isTup := rt.(*types.Tuple); !isTup {
+					open := false
+					for _, a := range args {
+						if a.op == "tuple" {
+							open = true
+						}
+					}
+					if !open {
+						x.note("uninterpreted function in contracts: " + shortKey(key))
+						return c.UF("uf_"+sanitize(shortKey(key)), x.ti.sortOf(rt), args...)
+					}
+				}
 			}
 			r := fr.freshResult(s, g, "call_"+callee.Name(), sig)
 			return r
@@ -271,6 +297,10 @@ func (fr *Frame) applyContract(s *State, g *Term, fc *FuncContract, callee *ssa.
 	cf.params = args
 	cf.paramNames = names
 	cf.sig = sig
+	if callee == nil {
+		cf.selfType = x.pendingSelfType
+	}
+	x.pendingSelfType = nil
 	cf.declareGhosts()
 	// instances of the callee's rigid ghosts chosen by the caller's contract
 	for _, gcl := range fc.Ghosts {
@@ -327,6 +357,12 @@ func (fr *Frame) applyContract(s *State, g *Term, fc *FuncContract, callee *ssa.
 	na := c.Fresh("alloc", SInt)
 	x.assume(g, c.IntCmp(">=", na, pre.alloc))
 	s.alloc = na
+	// effect counters: each call increments the caller's ghost counter of that name
+	for _, ef := range fc.Effects {
+		if v, ok := s.ghost[ef]; ok && bvWidth(v.sort) > 0 {
+			s.ghost[ef] = c.BVBin("bvadd", v, c.BV(1, bvWidth(v.sort)))
+		}
+	}
 	rt := resultType(sig)
 	var res *Term
 	extra := map[string]*Term{}
